@@ -987,6 +987,8 @@ def pad(tensor, padding, value=0.0):
 
     if tensor.is_ttm:
         cores = [c.clone() for c in tensor.cores]
+        # modes that are not padded behave like a (0, 0) padding: the rank-one corner channels must reach the first core
+        padding = ((0, 0),) * (len(tensor.N) - len(padding)) + tuple(padding)
         for pad, k in zip(reversed(padding), reversed(range(len(tensor.N)))):
             cores[k] = tnf.pad(cores[k], (1 if k < len(tensor.N)-1 else 0, 1 if k < len(tensor.N) -
                                1 else 0, pad[0], pad[1], pad[0], pad[1], 1 if k > 0 else 0, 1 if k > 0 else 0), value=0)
